@@ -430,3 +430,7 @@ mod tests {
         assert_eq!(active, active_only);
     }
 }
+
+#[cfg(any(kani, verif_replay))]
+#[path = "/verif/kani/mrp.rs"]
+pub(crate) mod verif_kani_mrp;
